@@ -295,6 +295,14 @@ func init() {
 			k(st, e.havocResults(st, fn.Signature, "closer"))
 		}
 	}
+	// atomic flags: abstract (any outcome); they carry no verified state
+	for _, n := range []string{"(*polycry.pt/poly-go/sync/atomic.Bool).TrySet", "(*polycry.pt/poly-go/sync/atomic.Bool).IsSet", "(*polycry.pt/poly-go/sync/atomic.Bool).Set",
+		"(*polycry.pt/poly-go/sync/atomic.Bool).Unset", "(*polycry.pt/poly-go/sync/atomic.Bool).TryUnset"} {
+		libSpecs[n] = func(e *Engine, st *State, fn *ssa.Function, args []Val, pos token.Pos, k Kont) {
+			e.nilCheck(st, args[0], pos, "atomic flag through nil pointer")
+			k(st, e.havocResults(st, fn.Signature, "atomic"))
+		}
+	}
 	libSpecs["time.Unix"] = pureUF("time_Unix")
 	libSpecs["(time.Time).UnixNano"] = pureUF("time_UnixNano")
 	libSpecs["(time.Time).Unix"] = pureUF("time_UnixS")
